@@ -418,7 +418,6 @@ type run struct {
 	changed      bool
 	kinds        map[string]bool
 	docKinds     map[string]bool
-	fsOpsAtCall  map[int]int
 	sawOverlap   bool
 	sawSaveOp    bool
 	keyOwnerSeen map[int]string
@@ -439,7 +438,7 @@ func envFlavour() int {
 
 // Run is one simulated run.
 func Run(s *simrt.Sim) {
-	c := &run{s: s, kinds: map[string]bool{}, docKinds: map[string]bool{}, fsOpsAtCall: map[int]int{}, keyOwnerSeen: map[int]string{}}
+	c := &run{s: s, kinds: map[string]bool{}, docKinds: map[string]bool{}, keyOwnerSeen: map[int]string{}}
 	c.fl = s.Choose(nFlavours)
 	c.flN = flName[c.fl]
 	if f := envFlavour(); f >= 0 && f != c.fl {
@@ -526,7 +525,7 @@ func Run(s *simrt.Sim) {
 		})
 	}
 	wg.Wait()
-	if s.Failed() {
+	if s.Failed() || s.Dead() {
 		return
 	}
 
